@@ -59,6 +59,11 @@ def _sim_kernel(base):
 
     def forward(self, x1, x2, diag=False, **params):
         FAULTS.hit("kernel")
+        # a call-time keyword of the user's kernel (Kernel.__call__ forwards **params to forward and keeps them on the lazily
+        # evaluated kernel tensor): rescales the inputs
+        input_scale = params.pop("input_scale", None)
+        if input_scale is not None:
+            x1, x2 = x1 * input_scale, x2 * input_scale
         return base.forward(self, x1, x2, diag=diag, **params)
 
     cls = type(name, (base,), {"forward": forward, "__module__": __name__})
@@ -149,7 +154,7 @@ class ZooExactGP(gpytorch.models.ExactGP):
             covar = self.covar_module(x).mul(self.task_covar_module(xs[1]))
             return MultivariateNormal(mean, covar)
         mean = self.mean_module(x)
-        covar = self.covar_module(x)
+        covar = self.covar_module(x, input_scale=self.call_scale) if getattr(self, "call_scale", None) else self.covar_module(x)
         if self.multitask:
             return MultitaskMultivariateNormal(mean, covar)
         return MultivariateNormal(mean, covar)
@@ -318,6 +323,8 @@ def build_exact(recipe, data=None, variant=0):
         ctor_inputs = inputs[0].squeeze(-1)
     late = data is None and recipe.get("late_data")
     model = ZooExactGP(None if late else ctor_inputs, None if late else y, lik, mean, covar, multitask=mt)
+    if recipe.get("call_scale"):
+        model.call_scale = float(recipe["call_scale"])
     if fam == "hadamard":
         model.task_covar_module = K.IndexKernel(num_tasks=tasks, rank=recipe.get("rank", 1))
     model = model.double()
@@ -393,6 +400,8 @@ def gen_exact_recipe(rng, families=None, small=True):
         if r["d"] >= 2 and rng.random() < 0.3:
             k = rng.randint(1, r["d"] - 1)
             r["active_dims"] = sorted(rng.sample(range(r["d"]), k))
+        if r["kernel"] in ("rbf", "matern05", "matern15", "matern25", "rq") and rng.random() < 0.12:
+            r["call_scale"] = rng.choice([0.5, 1.7])  # forward() passes a call-time keyword to the kernel
     elif fam == "kissgp":
         r["kernel"] = rng.choice(["rbf", "matern25", "matern15"])
         r["ard"] = False
